@@ -289,7 +289,7 @@ def setup():
 
 def extra_crates():
     res = []
-    for d in ('harness-logfeat',):
+    for d in ('harness-logfeat', 'harness-static'):
         p = os.path.join(VERIF, d)
         if os.path.isdir(p):
             res.append(p)
